@@ -79,6 +79,9 @@ var fpOnce sync.Once
 func (Engine) Prepare(cfg simkit.RunConfig, scenario any) {
 	fpOnce.Do(func() { util.EnableFailpoints() })
 	_ = failpoint.Enable("tikvclient/injectLiveness", `return("reachable")`)
+	// pipelined transactions flush after two keys (the defaults are 10000 keys / 16 MB)
+	_ = failpoint.Enable("tikvclient/pipelinedMemDBMinFlushKeys", `return(2)`)
+	_ = failpoint.Enable("tikvclient/pipelinedMemDBMinFlushSize", `return(1)`)
 	atomic.StoreUint64(&transaction.ManagedLockTTL, 20000)
 	transaction.VerifSetDefaultLockTTL(3000)
 	rand.Seed(int64(cfg.Seed))
@@ -87,7 +90,7 @@ func (Engine) Prepare(cfg simkit.RunConfig, scenario any) {
 // Cleanup implements simkit.Preparer.
 func (Engine) Cleanup(cfg simkit.RunConfig, scenario any) {}
 
-const lockExpiry = 26 * time.Second
+const writerGrace = 240 * time.Second
 
 // Execute implements simkit.Engine.
 func (Engine) Execute(t *testing.T, cfg simkit.RunConfig, scenario any) *simkit.RunResult {
@@ -121,21 +124,35 @@ func (Engine) Execute(t *testing.T, cfg simkit.RunConfig, scenario any) *simkit.
 		}
 		runPhase(0, sc.Setup)
 		settledBefore = w.settle(false)
-		before = w.dump()
+		w.onSim(func() { before = w.dump() })
 		if sc.Writer != nil {
-			w.runWriter(sc.Writer)
-			s.Sleep(lockExpiry)
+			// The survivors start at a fixed instant after the writer began, long after its death and
+			// after every lock of it expired - not "when its Commit call returned": a dead client's
+			// goroutines unwind through their back-off budgets in an order nobody controls.
+			wdone := make(chan struct{})
+			go func() {
+				defer close(wdone)
+				w.runWriter(sc.Writer)
+			}()
+			s.Sleep(writerGrace)
+			<-wdone
 		}
 		w.scheduleTopo()
 		runPhase(1, sc.Main)
 		settledAfter = w.settle(true)
-		after = w.dump()
+		w.onSim(func() {
+			after = w.dump()
+			w.writerFate()
+		})
 	})
 	if after == nil {
-		after = w.dump()
+		after = w.dump() // aborted run: the simulator loop has ended, nothing else touches the store
 	}
 	trace := w.net.Trace()
 	w.close()
+	// a lock keeper's heart beat (or a dead client's request) that was in flight when the network
+	// went down retries through a back-off budget of its own (tens of seconds, context.Background)
+	time.Sleep(90 * time.Second)
 	simkit.Settle()
 
 	res.Aborted = s.Aborted
@@ -149,9 +166,9 @@ func (Engine) Execute(t *testing.T, cfg simkit.RunConfig, scenario any) *simkit.
 	c := &checker{w: w, stats: res.Stats}
 	for _, p := range w.net.Panics {
 		sig := firstWords(p, 4)
-		if strings.Contains(p, "KvScan") && strings.Contains(p, "reverse:true") {
+		if strings.Contains(p, "KvScan") && strings.Contains(p, "reverse:true") && strings.HasPrefix(cfg.Mode, "revunb") {
 			// the mock refuses a reverse scan whose lower bound lies outside the addressed region: the
-			// symptom of a reverse scan routed to the wrong region
+			// symptom of known finding F1, which only the demonstration modes provoke
 			sig = "riter-unbounded-upper " + sig
 		}
 		c.fail("backend-panic", sig, "a handler of the mock server panicked: %s", p)
@@ -253,7 +270,9 @@ func firstWords(s string, n int) string {
 func traceDigest(tr []*simkit.RPCRecord) []string {
 	recs := make([]*simkit.RPCRecord, 0, len(tr))
 	for _, r := range tr {
-		if r.Type != tikvrpc.CmdStoreSafeTS {
+		// (what a dead client still tries to send exists for nobody: its goroutines unwind in an
+		// order the simulator does not control)
+		if r.Type != tikvrpc.CmdStoreSafeTS && r.Fate != "cut" {
 			recs = append(recs, r)
 		}
 	}
@@ -275,10 +294,17 @@ func traceDigest(tr []*simkit.RPCRecord) []string {
 
 func fmtRPC(w *world, r *simkit.RPCRecord) string {
 	msg := fmt.Sprintf("%v", r.Req.Req)
-	if len(msg) > 300 {
-		msg = msg[:300] + "..."
+	if len(msg) > 900 {
+		msg = msg[:900] + "..."
 	}
-	return fmt.Sprintf("rpc c%d %s region %d epoch %v fate=%q t=%v executed=%v err=%v req={%s}", r.Client, r.Type, r.Req.Context.GetRegionId(), r.Req.Context.GetRegionEpoch(), r.Fate, r.SubmitAt, r.Executed, r.RetErr, msg)
+	resp := ""
+	if r.Resp != nil && r.Resp.Resp != nil {
+		resp = fmt.Sprintf("%v", r.Resp.Resp)
+		if len(resp) > 600 {
+			resp = resp[:600] + "..."
+		}
+	}
+	return fmt.Sprintf("rpc c%d %s region %d epoch %v fate=%q t=%v executed=%v err=%v req={%s} resp={%s}", r.Client, r.Type, r.Req.Context.GetRegionId(), r.Req.Context.GetRegionEpoch(), r.Fate, r.SubmitAt, r.Executed, r.RetErr, msg, resp)
 }
 
 func fmtRec(w *world, r *OpRec) string {
@@ -509,10 +535,12 @@ func (w *world) settle(all bool) bool {
 		if w.sim.Aborted != "" {
 			return false
 		}
-		if w.net.Quiet(400 * time.Millisecond) {
+		if w.mon.quiet(400 * time.Millisecond) {
 			clean := true
 			if w.sc.Kind != "raw" {
-				for _, l := range w.dumpLocks() {
+				var locks []*kvrpcpb.LockInfo
+				w.onSim(func() { locks = w.dumpLocks() })
+				for _, l := range locks {
 					if all || !w.kss[ksA].has(l.Key) {
 						clean = false
 					}
@@ -624,35 +652,9 @@ func (c *checker) applyWriter(m *tmodel, final *storeDump) {
 	if w.writer == nil || w.writer.StartTS == 0 {
 		return
 	}
-	committed, rolled := 0, 0
-	for _, k := range w.keys(wr.Keys) {
-		pk := string(w.kss[ksA].enc(k))
-		found := false
-		for _, l := range final.lines[pk] {
-			_ = l
-		}
-		if w.ref != nil {
-			for _, rec := range w.ref.Store.Dump([]byte(pk)).Writes {
-				if rec.StartTS == w.writer.StartTS && (rec.Kind == kvrpcpb.Op_Put || rec.Kind == kvrpcpb.Op_Del) {
-					found = true
-				}
-			}
-		} else if info := w.mvcc.MvccGetByKey([]byte(pk)); info != nil {
-			for _, rec := range info.Writes {
-				if rec.StartTs == w.writer.StartTS && (rec.Type == kvrpcpb.Op_Put || rec.Type == kvrpcpb.Op_Del) {
-					found = true
-				}
-			}
-		}
-		if found {
-			committed++
-		} else {
-			rolled++
-		}
-	}
-	c.stats["writer.committed"] += b2i(committed > 0)
-	c.stats["writer.rolled-back"] += b2i(committed == 0)
-	if committed == 0 {
+	c.stats["writer.committed"] += b2i(w.writer.Committed > 0)
+	c.stats["writer.rolled-back"] += b2i(w.writer.Committed == 0)
+	if w.writer.Committed == 0 {
 		return
 	}
 	writes := map[string]*string{}
@@ -665,6 +667,35 @@ func (c *checker) applyWriter(m *tmodel, final *storeDump) {
 		}
 	}
 	m.commitVersion(writes)
+}
+
+// writerFate reads from the store (ground truth) on how many of its keys the dead writer's
+// transaction has a commit record.
+func (w *world) writerFate() {
+	wr := w.sc.Writer
+	if wr == nil || w.writer == nil || w.writer.StartTS == 0 {
+		return
+	}
+	for _, k := range w.keys(wr.Keys) {
+		pk := w.kss[ksA].enc(k)
+		found := false
+		if w.ref != nil {
+			for _, rec := range w.ref.Store.Dump(pk).Writes {
+				if rec.StartTS == w.writer.StartTS && (rec.Kind == kvrpcpb.Op_Put || rec.Kind == kvrpcpb.Op_Del) {
+					found = true
+				}
+			}
+		} else if info := w.mvcc.MvccGetByKey(pk); info != nil {
+			for _, rec := range info.Writes {
+				if rec.StartTs == w.writer.StartTS && (rec.Type == kvrpcpb.Op_Put || rec.Type == kvrpcpb.Op_Del) {
+					found = true
+				}
+			}
+		}
+		if found {
+			w.writer.Committed++
+		}
+	}
 }
 
 // checkIsolation: everything outside keyspace A is byte-identical before and after A's work;
